@@ -20,15 +20,16 @@ RULE = ("random sessions of 1..30 messages over 1..3 documents with the real `uc
 RULE += (" " + 'Also: the on-disk library is opened / edited (also into unparsable text) / closed during sessions and exists in 8 variants on disk; documents import other session documents that exist only in the editor (closed before the final comparison, importers touched); 30 % of the sessions sweep every character position of one document with completion / hover / definition.')
 RULE += (" " + 'The library has a ninth variant with its bindings 12 lines down and 60-90 columns to the right; documents use fields of imported tuples through further bindings; 8 % of the texts have multi-byte characters before a fault on the same line; 30 % of the positions sit on the name after a dot; positions include 2^31, 2^32-2, 2^32-1. An out-of-document definition range is classed as the known finding only when the target changed after the requester was last analysed and the range fits the text the target had then.')
 
-LIB = "let traceid = 1;\nlet val = 7;\nlet mk = func (x) => {v = x, s = \"s\"};\nlet cfg = {host = \"h\", port = 80};\n"
+LIB = ("let traceid = 1;\nlet val = 7;\nlet mk = func (x) => {v = x, s = \"s\"};\nlet cfg = {host = \"h\", port = 80};\n"
+       # nested tuples written far to the right: a position in here is outside the short lines of the documents
+       "let deep = {filler = \"................\", inner = {pad = \"........\", leaf = 1, other = {x = 2}}};\n")
 
 
 LIBNAME = "lib/shared.ucg"
 LIB_VARIANTS = [LIB, LIB.replace("let val = 7;", "let val = \"seven\";"), LIB.replace("port = 80", "prt = 80"), "let val = ;\n", "",
                 LIB.replace("let mk = func (x)", "let mk = func (x, y)"), LIB + "let extra = 1;\n", "let traceid = 1;\nlet val = 7;\n",
                 # the same bindings far down and far to the right: a position of this file is outside most documents that import it
-                "\n" * 12 + LIB.replace("let cfg = {host = \"h\", port = 80};", "let cfg = {\n" + " " * 60 + "host = \"h\",\n" + " " * 70 + "port = 80,\n};") +
-                "let deep = {\n" + " " * 50 + "inner = {\n" + " " * 90 + "leaf = 1,\n},\n};\n"]
+                "\n" * 12 + LIB.replace("let cfg = {host = \"h\", port = 80};", "let cfg = {\n" + " " * 60 + "host = \"h\",\n" + " " * 70 + "port = 80,\n};")]
 
 
 NON_ASCII = ["é", "éé", "ñandú", "日本語テキスト", "😀😀😀", "αβγδ", "ü", "中", "\u00a0\u00a0", "x\u0301y\u0301", "𝔘𝔫𝔦"]
@@ -60,9 +61,26 @@ def nonascii_before_fault(r):
     return lead + line + tail
 
 
+def import_binding_text(r):
+    """fields of the on-disk library reached through bindings of the importing document, at every depth and through
+    a function result: what the server answers about them comes from the library's shapes"""
+    lines = ["let lib = import \"lib/shared.ucg\";"]
+    pool = ["let t = lib.cfg;", "let h = t.host;", "let p = t.port + 1;", "let d = lib.deep;", "let i = d.inner;", "let l = i.leaf;",
+            "let q = d.inner.leaf;", "let g = lib.mk;", "let o = g(1);", "let ov = o.v;", "let os = o.s;", "let whole = lib;", "let wc = whole.cfg.port;",
+            "let wd = whole.deep.inner.leaf;", "let lst = [lib.cfg, lib.deep];", "let e0 = lst.0;", "let tt = {c = lib.cfg, d = lib.deep};", "let th = tt.c.host;",
+            "let tl = tt.d.inner.leaf;", "let cp = lib.cfg{extra = 1};", "let ch = cp.host;"]
+    # keep definition order (a binding is used after it is made), drop a few at random
+    for x in pool:
+        if r.random() < 0.8:
+            lines.append(x)
+    return "\n".join(lines) + "\n"
+
+
 def rand_text(r, probe):
     if r.random() < 0.08:
         return nonascii_before_fault(r)
+    if r.random() < 0.08:
+        return import_binding_text(r)
     x = r.random()
     if x < 0.35:
         stmts, _ = progs.gen_program(r, depth=3, nstmts=5, p_bad=r.choice([0, 0, 0.05]))
